@@ -412,3 +412,28 @@ Proof.
   destruct (run (init 0 0) [Request 0 None false; Request 0 None false]) as [s os] eqn:E.
   exact (proj1 (run_ok _ _ _ _ E (BInv_init 0 0))).
 Qed.
+
+(* ---- round 7: the model's transport constants and message-ID successor are the translated source's
+   (Gen/c03_constants.v <- numbers/constants.py TransportTuning, microseconds = seconds * 10^6; Gen/c14_message_id.v <- MessageManager._next_message_id) *)
+From Verif Require Gen.c03_constants Gen.c14_message_id.
+From Verif Require Proofs.C10Tie.
+Theorem C10_exchange_lifetime_is_source :
+  QArith_base.Qeq (QArith_base.inject_Z EXCHANGE_LIFETIME) (QArith_base.Qmult (c03_constants.EXCHANGE_LIFETIME c03_constants.default_transport_tuning) (QArith_base.inject_Z 1000000)).
+Proof. exact C10Tie.exchange_lifetime_is_source. Qed.
+Print Assumptions C10_exchange_lifetime_is_source.
+Theorem C10_empty_ack_delay_is_source :
+  QArith_base.Qeq (QArith_base.inject_Z EMPTY_ACK_DELAY) (QArith_base.Qmult (c03_constants.tt_EMPTY_ACK_DELAY c03_constants.default_transport_tuning) (QArith_base.inject_Z 1000000)).
+Proof. exact C10Tie.empty_ack_delay_is_source. Qed.
+Print Assumptions C10_empty_ack_delay_is_source.
+Theorem C10_ack_timeout_is_source :
+  QArith_base.Qeq (QArith_base.inject_Z ACK_TIMEOUT) (QArith_base.Qmult (c03_constants.tt_ACK_TIMEOUT c03_constants.default_transport_tuning) (QArith_base.inject_Z 1000000)).
+Proof. exact C10Tie.ack_timeout_is_source. Qed.
+Print Assumptions C10_ack_timeout_is_source.
+Theorem C10_max_retransmit_is_source :
+  MAX_RETRANSMIT = c03_constants.tt_MAX_RETRANSMIT c03_constants.default_transport_tuning.
+Proof. exact C10Tie.max_retransmit_is_source. Qed.
+Print Assumptions C10_max_retransmit_is_source.
+Theorem C10_next_message_id_is_source :
+  forall s, c14_message_id.next_message_id {| c14_message_id.mmids_message_id := next_mid s |} = Ok ({| c14_message_id.mmids_message_id := next_mid (fst (_next_message_id s)) |}, snd (_next_message_id s)).
+Proof. exact C10Tie.next_message_id_is_source. Qed.
+Print Assumptions C10_next_message_id_is_source.
